@@ -426,6 +426,13 @@ def main_check(mod, tier: str, seed: int, replay: str | None = None) -> int:
     cases = mod.cases(tier, seed)
     total = len(cases)
     print(f"[{pid}] tier={tier} seed={seed} cases={total} repo={REPO}", flush=True)
+    if getattr(mod, "USES_GENERATOR", True):
+        try:
+            from . import sandbox
+
+            sandbox.reset_generator_globals()  # take the baseline of the generator's process-global state once, before the pool forks
+        except Exception:
+            pass
     results = explore(mod, cases)
     # A watchdog expiry depends on machine load, not only on the subject: every case that hit it is run once more, alone (the pool is
     # idle now), with four times the budget. Only a case that still does not terminate is reported; otherwise its completed result counts.
